@@ -28,13 +28,7 @@ RULE = ("two searches. crash: case = (functional, function kind, debug mode off 
         "deduplicated on (labels on the reference stack, lock depth, debug stack) to depth 6 (quick) / 8 (thorough); "
         "every sequence is replayed from a fresh object and ends with a full unwind. distinct = distinct "
         "(N per phase, outcome table) observations; a crash case is trivial when the phase makes no call (N = 0)")
-RULE_ADDED = ('Added later: every crash point also with a fault that does not derive from Exception (KeyboardInterr'
-              'upt-like); alias search = every set partition of up to 5 / 6 declared names for EditableModule and L'
-              "inearOperator; push label 'first'. Round 4: kind em_cplx (object also holds complex / integer tensor"
-              's that the function does not use). Round 5: re-assignment search = (functional incl. list-state solve_'
-              'ivp, object kind, declared attribute, backward / recorded backward / double backward): the owner ass'
-              'igns a new tensor to the attribute between the forward call and the backward pass, the object must '
-              'hold exactly that state afterwards.')
+RULE_ADDED = "Added later: every crash point also with a fault that does not derive from Exception (KeyboardInterrupt-like); alias search = every set partition of up to 5 / 6 declared names for EditableModule and LinearOperator; push label 'first'. Round 4: kind em_cplx (object also holds complex / integer tensors that the function does not use). Round 5: re-assignment search = (functional incl. list-state solve_ivp, object kind, declared attribute, backward / recorded backward / double backward): the owner assigns a new tensor to the attribute between the forward call and the backward pass, the object must hold exactly that state afterwards. Round 6: kind em_nn2 (EditableModule declaring a subset of the Parameters of an inner nn.Module)."
 ASSUMPTIONS = [
     "one fault per execution in the crash search; the fault is raised at the start of the user's function / "
     "operator product; scripted functions are not enumerated (no object state, no place to inject a fault)",
